@@ -243,3 +243,19 @@ def produce_header_version(api_version: int) -> int:
 
 def payload_msgs_ok(p: ProduceRequest) -> bool:
     return len(p.messages) < 100000000
+
+
+# ---------------------------------------------------------------------------------------------- consumer
+
+@rec
+def sm_increasing(ms: List[SourcedMessage], k: int) -> bool:
+    """offsets of the first k delivered messages are strictly increasing"""
+    if k <= 1:
+        return True
+    return sm_increasing(ms, k - 1) and ms[k - 2].offset < ms[k - 1].offset
+
+
+def sm_last_offset(ms: List[SourcedMessage], dflt: int) -> int:
+    if len(ms) == 0:
+        return dflt
+    return ms[len(ms) - 1].offset
